@@ -26,7 +26,8 @@ MIN = {"quick": {"coverage": 3000, "density": 2000, "node_density": 5000, "edge_
                  "inter_event(global)": 3000, "inter_event(node)": 5000, "inter_out_event(node)": 1000},
        "thorough": {"coverage": 60000, "density": 40000, "node_density": 100000, "edge_contribution": 100000,
                     "inter_event(global)": 60000, "inter_event(node)": 100000, "inter_out_event(node)": 20000}}
-REQUIRED_CELLS = {t: ("state:multi-run", "state:interval", "state:isolated", "state:node-disappears")
+REQUIRED_CELLS = {t: ("state:multi-run", "state:interval", "state:isolated", "state:node-disappears",
+                      "state:>128-shared-snapshots", "ids:signs")
                   for t in ("quick", "thorough")}
 
 
@@ -73,6 +74,17 @@ def ratios(ctx, dn):
     prog = [op for op in prog if not any(u == v for (u, v, t, e) in gen.elements(op))]
     if not prog:
         return
+    if rng.random() < 0.04:
+        # long-lived interactions: nodes sharing well over a hundred snapshots
+        els = [x for op in prog for x in gen.elements(op)]
+        nodes_ = sorted(set(n for x in els for n in x[:2]), key=repr)
+        if len(nodes_) >= 2:
+            t0 = max([x[2] for x in els if x[2] is not None] + [0]) + 20
+            span = rng.randint(130, 300)
+            prog.append(("add", nodes_[0], nodes_[1], t0, t0 + span))
+            if len(nodes_) > 2:
+                prog.append(("add", nodes_[1], nodes_[2], t0 + 5, t0 + span - 7))
+            ctx.cell("state:>128-shared-snapshots")
     G = driver.new_graph(dn, False, True)
     m = Model(False, True)
     ctx.cases += 1
@@ -126,7 +138,11 @@ def evaluate_ratios(ctx, dn, G, m, last):
     for u in rng.sample(V, min(3, len(V))):
         du = dict(u=u)
         stat(ctx, "node_contribution", lambda: G.node_contribution(u), ratio(len(Tn[u]), len(T)), du)
-        ctx.expect("node_presence", G.node_presence(u), Tn[u], du)
+        raw = G.node_presence(u)
+        ctx.expect("node_presence", raw, Tn[u], du)
+        if isinstance(raw, set):
+            raw.clear()          # a caller may edit the set it was given; the next answer must not care
+        ctx.expect("node_presence", G.node_presence(u), Tn[u], dict(du, note="after the caller edited the returned set"))
         nd_num = sum(St[t].degree(u) for t in T)
         nd_den = sum(len(Tn[v] & Tn[u]) for v in V)
         stat(ctx, "node_density", lambda: G.node_density(u), ratio(nd_num, nd_den) if nd_den else Fraction(0), du)
@@ -156,7 +172,19 @@ def hist(events):
 def inter_event(ctx, dn):
     rng = ctx.rng
     directed = rng.random() < 0.5
-    prog, fam = gen.random_program(rng, lambda: Model(directed, True), directed=directed, with_nodes=False)
+    signs = rng.random() < 0.1
+    prog, fam = gen.random_program(rng, lambda: Model(directed, True), directed=directed, with_nodes=False,
+                                   family="str" if signs else None)
+    if signs:
+        # node ids that coincide with the event markers of the stream
+        ren = {"n0": "+", "n1": "-", "n2": "a"}
+
+        def rn(x):
+            return ren.get(x, x)
+        prog = [(op[0], rn(op[1]), rn(op[2]), op[3], op[4]) if op[0] == "add" else
+                (op[0], [(rn(x[0]), rn(x[1])) + tuple(x[2:]) for x in op[1]], op[2], op[3]) if op[0] == "addfrom" else
+                (op[0], [rn(x) for x in op[1]]) + tuple(op[2:]) for op in prog]
+        ctx.cell("ids:signs")
     G, m, ok = driver.build_accepted(dn, prog, directed)
     if not ok or not m.nontrivial():
         ctx.skip("graph not built")
